@@ -212,10 +212,14 @@ CHECKS = {
     ),
     "C16": dict(
         level="model_checking",
-        mc=[dict(module="MC_Wallet", workers=16)],
+        mc=[dict(module="MC_Wallet", workers=16), dict(module="MC_Args", workers=12)],
         gen=[dict(module="Gen_C16", slices=dict(quick=16, thorough=16))],
         rule="MC_Wallet (see C11): sign/hash agreement, selectors exclusive, flag/environment equivalence on the stage "
-             "machine; Gen_C16: PRNG sample over 13 command forms (cycled) x 4 mnemonics x 5 passphrases x 11 selectors "
+             "machine; MC_Args: the command line token machine (Args.tla, the first stage of Wallet.tla) stepped token by token "
+             "over every command form x option source lattice x 40 spelling styles and every single-token slip: rendering and "
+             "parsing are inverse, the meaning is style-invariant, slips are refused, 30 lines observed on the real binary are "
+             "theorems; Gen_C16: spelling styles and slips of the command line (selectors split around the inner subcommand "
+             "must be refused), PRNG sample over 13 command forms (cycled) x 4 mnemonics x 5 passphrases x 11 selectors "
              "x flag/env per option x file/stdin; the exhaustive 54-point option source lattice on address/export/"
              "public-key; sessions hash X - address - sign X whose real outputs must agree (recover(sign, hash) = "
              "address); missing/invalid mnemonics and unusable selectors",
@@ -393,11 +397,12 @@ MANIFEST_TEXT = {
         technique="TLC model check + trace validation of CLI sessions"),
     "C16": dict(
         text="Every command form is a path through the TLA+ CLI pipeline (Wallet.tla): option sources, account "
-             "resolution (BIP-39 seed, BIP-32 path), input, digest, signature, print.  TLC model-checks the stage "
-             "machine and validates exit status and stdout of the real binary for sampled commands, the full option "
+             "resolution (BIP-39 seed, BIP-32 path), input, digest, signature, print; the first stage is the command line "
+             "grammar as a token machine (Args.tla: option spellings, sources flag / environment, conflicts).  TLC model-checks the "
+             "stage machine and the token machine and validates exit status and stdout of the real binary for sampled commands, the full option "
              "source lattice and multi-command sessions whose outputs must be mutually consistent.",
         design_ref="6 (C16)", note=_TRUST,
-        technique="TLC model check of the CLI stage machine + trace validation of real-binary runs and sessions"),
+        technique="TLC model check of the CLI stage machine and the command line token machine + trace validation of real-binary runs and sessions"),
     "C18": dict(
         text="The vanity search is a TLA+ model (Vanity.tla: main, workers, channel, entropy environment) whose "
              "interleavings TLC explores exhaustively; the same observer operators fold the shim's ordered entropy log of "
